@@ -39,6 +39,10 @@ Inductive op :=
   | OOfMesh (nb : Z) (ss : list Z) (pad : option Q)
   | OSpanStore (b s : Z) | OCenterStore (b s : Z)    (* span / center, the returned array kept by the caller as array s *)
   | ONormalize (s : Z) (k : option nkind) (after : list Q)   (* Vec.normalize, in place; `after` = the contents observed afterwards *)
+  | ODim (b : Z) | OMini (b : Z) | OMaxi (b : Z)   (* the properties dim / mini / maxi *)
+  | OAnd (nb b1 b2 : Z) | OOr (nb b1 b2 : Z)       (* b1 & b2, b1 | b2 *)
+  | OGetC (s : Z) (c : Z)                          (* Vec(arr).x / .y / .z (c = 0, 1, 2) or .xy (c = 3) *)
+  | OVecSet (s : Z) (c : Z) (v : Q)                (* Vec(arr).x = v (.y, .z): the documented in-place setters *)
   | OVecCtor (c : Z) (n : Z) (sa sb : Z) (va vb : list Q)
       (* a Vec constructor (0 zeros(n), 1 X, 2 Y, 3 Z, other: random(n)) called TWICE with the same arguments; the two
          results become caller arrays sa, sb; va, vb = the observed contents (the model's own for 0..3) *)
@@ -328,6 +332,24 @@ Definition step (st : state) (o : op) : mres * state * list (Z * (list Q * list 
       match A s with
       | Some v => (MVF (vec_normalize float FO (vq2f v) k), mkst ((s, after) :: arrs st) (boxes st), [],
                    if vq_eqb v after then 0%Z else 1%Z)
+      | None => keep MBad
+      end
+  | ODim b => match B b with Some x => keep (MQ (inject_Z (Z.of_nat (aabb_dim Q QO x)))) | None => keep MBad end
+  | OMini b => match B b with Some x => keep (MVQ (aabb_mini Q QO x)) | None => keep MBad end
+  | OMaxi b => match B b with Some x => keep (MVQ (aabb_maxi Q QO x)) | None => keep MBad end
+  | OAnd nb b1 b2 => match B b1, B b2 with Some x, Some y => newbox nb (aabb_and Q QO x y) | _, _ => keep MBad end
+  | OOr nb b1 b2 => match B b1, B b2 with Some x, Some y => newbox nb (aabb_or Q QO x y) | _, _ => keep MBad end
+  | OGetC s c =>
+      match A s with
+      | Some v => keep (if Z.eqb c 0 then MQ (vec_x Q QO v) else if Z.eqb c 1 then MQ (vec_y Q QO v)
+                        else if Z.eqb c 2 then MQ (vec_z Q QO v) else MVQ (vec_xy Q QO v))
+      | None => keep MBad
+      end
+  | OVecSet s c v =>
+      match A s with
+      | Some w => let w' := if Z.eqb c 0 then vec_set_x Q QO w v else if Z.eqb c 1 then vec_set_y Q QO w v
+                            else vec_set_z Q QO w v in
+                  (MNone, mkst ((s, w') :: arrs st) (boxes st), [], if vq_eqb w w' then 0%Z else 1%Z)
       | None => keep MBad
       end
   | OVecCtor c n sa sb va vb =>
